@@ -8,6 +8,7 @@ import JanetModel.Value.Order
 import JanetModel.Value.F64
 import JanetModel.Value.Struct
 import JanetModel.Value.StructLemmas
+import JanetModel.Value.SymCacheLemmas
 
 namespace JanetModel.Props.C03
 open JanetModel.Value
@@ -133,6 +134,60 @@ theorem symbol_identity_iff_bytes (a b : List UInt8) :
     (jcompare (.sym a : JVal N) (.sym b) = .eq ↔ a = b) ∧ (jcompare (.kw a : JVal N) (.kw b) = .eq ↔ a = b) := by
   refine ⟨by simp [equals], by simp [equals], by simp [equals], by simp [equals], by simp [equals], ?_, ?_⟩ <;>
     simp [jcompare, bytesCompare_eq_iff]
+
+/-! ### symbol interning (src/core/symcache.c, model `Value/SymCache.lean`)
+
+The model works on histories of `intern bytes` / `sweep bytes` from `janet_symcache_init`, with tombstones, the move of a
+found symbol into the first tombstone on its probe path, `janet_cache_resize`.  What the C writes into a vacated slot
+(`JANET_SYMCACHE_DELETED`, not `NULL`) is regenerated from the source: with `NULL` the probe-chain part of the invariant
+(`Inv.chain`, lemma `vacatedByMove_ne`) no longer checks. -/
+
+section symcache
+open JanetModel.Value.SymCache
+
+/-- after ANY history: no two cached symbols with the same bytes, one address names one symbol, a cached symbol is found by
+    a lookup of its bytes (which returns its address), and the cache holds exactly the byte strings interned and not swept
+    since (no symbol is lost, e.g. by a resize) -/
+theorem symcache_unique (ops : List Op) (c : Cache) (h : run init ops = some c) :
+    (∀ p q b, Live c.slots p b → Live c.slots q b → p = q) ∧
+    (∀ p b b', Live c.slots p b → Live c.slots p b' → b = b') ∧
+    (∀ p b, Live c.slots p b → ∃ c', intern c b = some (c', p)) ∧
+    (∀ b, (∃ p, Live c.slots p b) ↔ b ∈ aliveAfter [] ops) := by
+  have hs := run_spec ops init [] c init_invC
+    (fun b => ⟨fun ⟨p, hp⟩ => absurd hp (not_live_replicate _ _ _), fun hb => by simp at hb⟩) h
+  refine ⟨fun p q b ⟨i, hi⟩ ⟨j, hj⟩ => ?_, hs.1.ptrInj, fun p b hl => ?_, hs.2⟩
+  · have := hs.1.inv.nodup i j p q b hi hj
+    subst this; rw [hi] at hj; cases hj; rfl
+  · obtain ⟨c', hc', _⟩ := intern_liveC hs.1 hl
+    exact ⟨c', hc'⟩
+
+/-- equal byte strings intern to the same address for as long as the symbol is not swept, whatever happens in between
+    (other interns, sweeps of other symbols, tombstone reuse, resizes); different byte strings get different addresses -/
+theorem symcache_same_symbol (ops1 ops2 : List Op) (c c1 c2 c3 : Cache) (b b' : List UInt8) (p1 p3 : Nat)
+    (h0 : run init ops1 = some c) (h1 : intern c b = some (c1, p1)) (h2 : run c1 ops2 = some c2)
+    (hns : ∀ o ∈ ops2, o ≠ Op.sweep b) (h3 : intern c2 b' = some (c3, p3)) :
+    (b' = b → p3 = p1) ∧ (b' ≠ b → p3 ≠ p1) := by
+  have hc := run_inv ops1 init c init_invC h0
+  obtain ⟨hc1, hl1, _, _⟩ := intern_post hc h1
+  have hc2 := run_inv ops2 c1 c2 hc1 h2
+  have hl2 : Live c2.slots p1 b := live_stable ops2 c1 c2 p1 b hc1 hl1 h2 hns
+  obtain ⟨hc3, hl3, hnew, hold⟩ := intern_post hc2 h3
+  refine ⟨fun e => ?_, fun hne e => ?_⟩
+  · subst e; exact (hold p1 hl2).symm
+  · subst e
+    by_cases hex : ∃ q, Live c2.slots q b'
+    · obtain ⟨q, hq⟩ := hex
+      have := hold q hq; subst this
+      exact hne (hc2.ptrInj _ _ _ hq hl2)
+    · have := hnew (fun q hq => hex ⟨q, hq⟩)
+      have := hc2.fresh _ _ hl2
+      omega
+
+/-- non-vacuity: a history with a tombstone on the probe path of a later lookup runs without hitting the assertion -/
+example : (run init [.intern [97], .intern [98], .intern [99], .sweep [98], .intern [99], .intern [98], .sweep [97]]).isSome = true := by
+  decide +kernel
+
+end symcache
 
 /-! ### struct layout
 
